@@ -106,8 +106,23 @@ func c14Exec(c Case) (outs []string, fails []Failure, tags []string) {
 	modBal := func(ctx sdk.Context, name string) *big.Int {
 		return app.BankKeeper.GetBalance(ctx, authtypes.NewModuleAddress(name), denom).Amount.BigInt()
 	}
-	pool := func(ctx sdk.Context) *big.Int {
-		return app.DistrKeeper.GetFeePool(ctx).CommunityPool.AmountOf(denom).TruncateInt().BigInt()
+	// what the stored community pool holds of one denomination: the sum over ALL its entries of that denomination (a
+	// well-formed pool has one; AmountOf would stop at the first)
+	poolOf := func(ctx sdk.Context, dn string) sdkmath.Int {
+		t := sdk.ZeroDec()
+		for _, dc := range app.DistrKeeper.GetFeePool(ctx).CommunityPool {
+			if dc.Denom == dn {
+				t = t.Add(dc.Amount)
+			}
+		}
+		return t.TruncateInt()
+	}
+	pool := func(ctx sdk.Context) *big.Int { return poolOf(ctx, denom).BigInt() }
+	// the stored pool is a well-formed coin set (sorted, one entry per denomination, positive amounts)
+	poolWellFormed := func(i int, what string) {
+		if err := app.DistrKeeper.GetFeePool(ctx).CommunityPool.Validate(); err != nil {
+			fails = append(fails, Failure{Signature: "C14:community-pool-malformed", What: fmt.Sprintf("%s: the stored community pool is %s: %v", what, app.DistrKeeper.GetFeePool(ctx).CommunityPool, err), Case: c[:i+1]})
+		}
 	}
 	supply := func(ctx sdk.Context) *big.Int { return app.BankKeeper.GetSupply(ctx, denom).Amount.BigInt() }
 	type snap struct{ sup, pool, distr, bonded, notb, gov *big.Int }
@@ -132,6 +147,7 @@ func c14Exec(c Case) (outs []string, fails []Failure, tags []string) {
 		if sub(post.distr, pre.distr).Cmp(left) != 0 {
 			fl("C14:distribution-account-delta", fmt.Sprintf("distribution account grew by %s, pools lost %s", sub(post.distr, pre.distr), left))
 		}
+		poolWellFormed(i, what)
 	}
 	for i, line := range c {
 		f := strings.Fields(line)
@@ -216,7 +232,7 @@ func c14Exec(c Case) (outs []string, fails []Failure, tags []string) {
 					var t two
 					for _, c := range coins {
 						t.sup = t.sup.Add(app.BankKeeper.GetSupply(ctx, c.Denom))
-						t.pool = t.pool.Add(sdk.NewCoin(c.Denom, app.DistrKeeper.GetFeePool(ctx).CommunityPool.AmountOf(c.Denom).TruncateInt()))
+						t.pool = t.pool.Add(sdk.NewCoin(c.Denom, poolOf(ctx, c.Denom)))
 						t.distr = t.distr.Add(app.BankKeeper.GetBalance(ctx, authtypes.NewModuleAddress(distrtypes.ModuleName), c.Denom))
 					}
 					return t
@@ -243,6 +259,7 @@ func c14Exec(c Case) (outs []string, fails []Failure, tags []string) {
 				if !post.distr.Sub(pre.distr...).IsEqual(coins) {
 					fl("C14:distribution-account-delta", fmt.Sprintf("distribution account grew by %s", post.distr.Sub(pre.distr...)))
 				}
+				poolWellFormed(i, "BurnCoins("+c14Mods[m]+", "+coins.String()+")")
 			case "slash":
 				out = "skip"
 				vals := app.StakingKeeper.GetAllValidators(ctx)
